@@ -293,6 +293,7 @@ def main():
 
 
 def do_replay(prop, path, seed, cache):
+    path = os.path.abspath(path if os.path.exists(path) else os.path.join(ROOT, path))
     payload = json.load(open(path))
     if payload.get("layer") == "B" or "case" in payload:
         out = os.path.join(cache, "%s.Breplay.json" % prop)
